@@ -21,7 +21,7 @@ pub fn run(tier: Tier) -> i32 {
         let qs = range_queries(&reps);
         let before = acc.evaluations;
         let yielded = run_queries("C04", &spec, &bytes, &model, &qs, acc);
-        if big || i % 64 == 0 {
+        if big || i % 256 == 0 {
             acc.count("files_also_queried_over_a_short_reading_source", 1);
             // ... of the file as received by a sink accepting short and interrupted writes
             match crate::common::write_file_short(&spec.cfg, &model.entries) {
